@@ -410,7 +410,7 @@ impl Scenario for C13 {
         }
         let mut opts = ConnOpts::default();
         opts.frame_max = cfm;
-        let plan = SessionPlan { opts, tuning: Tuning { bound: *pick(&mut cs, "bound", &[16usize, 1, 2]), high: 16 << 20, low: 0 }, threads, owner_ops, close: CloseKind::Close, join_before_close: true };
+        let plan = SessionPlan { opts, tuning: Tuning { bound: *pick(&mut cs, "bound", &[16usize, 1, 2, 0]), high: 16 << 20, low: 0 }, threads, owner_ops, close: CloseKind::Close, join_before_close: true };
         let gen = Generated { plan, net, broker, sched, frame_max };
         let (res, world) = run_generated(&gen, cs, text, |_| {});
         let mut rep = CaseReport::default();
